@@ -101,6 +101,11 @@ def selfcheck_lemmas(bound=40):
     for k in range(0, 400):
         assert lemma_pow2_mod61(k)
         n += 1
+    for a in range(-2, 60):
+        assert lemma_cfix_nonneg(a)
+        for b in range(0, a + 1):
+            assert lemma_cfix_shift(a, b)
+            n += 1
     return n
 
 
@@ -212,3 +217,32 @@ def lemma_sq_expand(y):
 
 
 HINT_LEMMAS += [lemma_sq_expand]
+
+
+# ---------------------------------------------------------------- fixed-point constants (C17)
+from .spec import cfix                                   # noqa: E402
+
+
+def lemma_cfix_shift(a, b):
+    """nested floors: floor(floor(c*2**a) / 2**(a-b)) == floor(c*2**b)  for a >= b >= 0"""
+    return implies(a >= b and b >= 0, shr(cfix(a), a - b) == cfix(b))
+
+
+def lemma_cfix_nonneg(a):
+    """c > 0"""
+    return cfix(a) >= 0
+
+
+HINT_LEMMAS += [lemma_cfix_shift, lemma_cfix_nonneg]
+
+
+# ---------------------------------------------------------------- monotone real functions (C14)
+from .spec import r_fun                                  # noqa: E402
+
+
+def lemma_r_fun_mono(k, a, b):
+    """exp, log (on positive reals), sqrt (on non-negative reals) and atan are non-decreasing"""
+    return implies(a <= b and (k != 1 or a > 0) and (k != 2 or a >= 0), r_fun(k, a) <= r_fun(k, b))
+
+
+HINT_LEMMAS += [lemma_r_fun_mono]
